@@ -182,3 +182,29 @@ package core
 //@ ensures [an-unset-submitter-count-means-one-submitter] cfg.NumSubmitters == 0 ==> result.Submitters == 1
 //@ ensures [set-counts-are-taken-as-configured] (cfg.NumFetchers != 0 ==> result.FetcherOptions.ParallelFetch == int(cfg.NumFetchers)) && (cfg.NumSubmitters != 0 ==> result.Submitters == int(cfg.NumSubmitters))
 //@ ensures [range-mode-and-sizes-are-the-configured-ones] result.FetcherOptions.BatchSize == int(cfg.BatchSize) && result.FetcherOptions.StartIndex == cfg.StartIndex && result.FetcherOptions.EndIndex == cfg.EndIndex && result.FetcherOptions.Continuous == cfg.IsContinuous && result.ChannelSize == int(cfg.ChannelSize) && result.NoConsistencyCheck == cfg.NoConsistencyCheck
+
+// C20: what the controller relies on from a validated migration config. fetchTail requires a positive
+// batch size and the identity hash is chosen by the configured identity function, so an accepted
+// config has both (and a source, a key and a positive tree ID); nothing else makes it refuse.
+// Observation (not a clause of C20, recorded in DESIGN.md): neither a negative start/end index nor an
+// absent migration_configs section is looked at here; the latter is a nil dereference in ValidateConfig,
+// stated below as its precondition.
+//@ func ValidateMigrationConfig
+//@ props C20
+//@ arith int
+//@ pure
+//@ requires cfg != nil
+//@ let known = cfg.IdentityFunction == configpb.IdentityFunction_SHA256_CERT_DATA || cfg.IdentityFunction == configpb.IdentityFunction_SHA256_LEAF_INDEX
+//@ ensures [accepted-exactly-when-source-key-tree-batch-and-identity-function-are-usable] result == nil <==> len(cfg.SourceUri) > 0 && cfg.PublicKey != nil && cfg.LogId > 0 && cfg.BatchSize >= 1 && known
+
+//@ func ValidateConfig
+//@ props C20
+//@ arith int
+//@ site ValidateMigrationConfig#1 as vm
+//@ requires cfg != nil && cfg.MigrationConfigs != nil
+//@ requires forall j int :: 0 <= j && j < len(cfg.MigrationConfigs.Config) ==> cfg.MigrationConfigs.Config[j] != nil
+//@ loop 1 invariant forall k int :: 0 <= k && k <= rangeindex ==> has(logIDs, cfg.MigrationConfigs.Config[k].LogId) && logIDs[cfg.MigrationConfigs.Config[k].LogId] && cfg.MigrationConfigs.Config[k].BatchSize >= 1
+//@ loop 1 invariant forall m int :: 0 <= m && m <= rangeindex ==> (forall k int :: 0 <= k && k < m ==> cfg.MigrationConfigs.Config[k].LogId != cfg.MigrationConfigs.Config[m].LogId)
+//@ ensures [accepted-means-every-migration-is-valid] result == nil ==> (forall k int :: 0 <= k && k < len(cfg.MigrationConfigs.Config) ==> cfg.MigrationConfigs.Config[k].BatchSize >= 1)
+//@ ensures [accepted-means-destination-trees-are-distinct] result == nil ==> (forall m int :: 0 <= m && m < len(cfg.MigrationConfigs.Config) ==> (forall k int :: 0 <= k && k < m ==> cfg.MigrationConfigs.Config[k].LogId != cfg.MigrationConfigs.Config[m].LogId))
+//@ ensures [a-refused-migration-refuses-the-whole-config] vm.called && vm.res != nil ==> result != nil
